@@ -571,7 +571,10 @@ func (x *side) serveProc() {
 	_, err = r.Token()
 	r.Close()
 	x.lg.Add(vt.Ev{"ev": "ret", "p": "s", "k": "rx", "class": errClass(err)})
-	x.doCall("s", "send")
+	// every transmit entry point, after the end
+	for _, k := range []string{"send", "sendel", "encode", "encodeel", "tw"} {
+		x.doCall("s", k)
+	}
 }
 
 // ---------------------------------------------------------------- negotiation
@@ -602,10 +605,15 @@ func negotiate(sc Scenario, c, s *side) {
 	}
 	perm := func(n *sasl.Negotiator) bool {
 		u, p, _ := n.Credentials()
-		return string(u) == user && string(p) == password
+		ok := string(u) == user && string(p) == password
+		if !ok {
+			s.lg.Add(vt.Ev{"ev": "refuse", "f": "sasl"})
+		}
+		return ok
 	}
 	binder := func(j jid.JID, res string) (jid.JID, error) {
 		if sc.Neg == "binderr" {
+			s.lg.Add(vt.Ev{"ev": "refuse", "f": "bind"})
 			return jid.JID{}, stanza.Error{Type: stanza.Cancel, Condition: stanza.Conflict}
 		}
 		return j.WithResource("r1")
